@@ -638,6 +638,20 @@ class CFG:
     def guard_texts(self, node: Node) -> set:
         return {(norm(e), p) for e, p in self.guards(node)}
 
+    def all_facts(self, node: Node, sub: ast.AST | None = None) -> list:
+        """Dominating facts plus, for a sub-expression of the node, the short-circuit facts."""
+        facts = list(self.guards(node))
+        if sub is not None:
+            for r in ([node.ast] if node.kind in ('stmt', 'test') else []):
+                ig = inner_guards(r, sub)
+                if ig:
+                    facts.extend(ig)
+        return facts
+
+    def has_fact(self, node: Node, text: str, polarity: bool = True, sub: ast.AST | None = None) -> bool:
+        want = canon_fact(ast.parse(text, mode='eval').body, polarity)
+        return any(canon_fact(e, p) == want for e, p in self.all_facts(node, sub))
+
     def has_guard(self, node: Node, text: str, polarity: bool = True) -> bool:
         """Does the fact `text` (normalised source of an expression) with the polarity hold at
         node? `not X` true == X false; `X is not None` true == `X is None` false."""
@@ -718,3 +732,51 @@ def canon_fact(e: ast.expr, polarity: bool):
             e2 = ast.Compare(left=e.left, ops=[_NEG_OPS[op]()], comparators=e.comparators)
             return (norm(e2), not polarity)
     return (norm(e), polarity)
+
+
+def inner_guards(root: ast.expr, target: ast.AST) -> list | None:
+    """Facts that must hold for the sub-expression `target` of `root` to be evaluated at all
+    (short-circuit semantics of and / or / conditional expressions / not).
+    Returns None if target is not inside root."""
+    if root is target:
+        return []
+    if isinstance(root, ast.BoolOp):
+        for i, v in enumerate(root.values):
+            sub = inner_guards(v, target)
+            if sub is not None:
+                facts = []
+                for prev in root.values[:i]:
+                    facts.extend(decompose(prev, isinstance(root.op, ast.And)))
+                return facts + sub
+        return None
+    if isinstance(root, ast.IfExp):
+        sub = inner_guards(root.test, target)
+        if sub is not None:
+            return sub
+        sub = inner_guards(root.body, target)
+        if sub is not None:
+            return decompose(root.test, True) + sub
+        sub = inner_guards(root.orelse, target)
+        if sub is not None:
+            return decompose(root.test, False) + sub
+        return None
+    for child in ast.iter_child_nodes(root):
+        if isinstance(child, (ast.Lambda, ast.FunctionDef, ast.AsyncFunctionDef)):
+            continue
+        sub = inner_guards(child, target)
+        if sub is not None:
+            return sub
+    return None
+
+
+def mk(node: ast.AST) -> set:
+    """MK: M0 plus: a subscript load on a control table (`self._ct_*[...]`, `*_cb[...]`,
+    `state_events[...]`) may raise KeyError -- makes `try/except KeyError` look-ups visible."""
+    kinds = set()
+    for n in walk_shallow(node):
+        if isinstance(n, ast.Subscript) and isinstance(n.ctx, ast.Load):
+            kinds.add('N:KeyError')
+    return kinds
+
+
+MODELS['MK'] = mk
